@@ -103,8 +103,10 @@ type VC struct {
 	consts   map[string]string // heap locations known to hold a literal
 	allocRefs map[string]bool // ref terms of objects allocated in this VC
 	shadow   map[string]*SV  // interface values stored at constant cells of local objects (metadata only)
+	guardEnv *Env // entry-state environment for the file-write guard of the contract
 	lastRSA  *rsaCall // the most recent rsa.VerifyPKCS1v15 call (ghost capture for contracts)
 	boxedTypes []types.Type // concrete types put into interfaces so far (candidates for loaded interface values)
+	hints    map[string][]string // contract-provided instantiation terms per bound-variable name
 	hyps     []*hyp // quantified hypotheses, instantiated per obligation
 	instantiating bool
 	bound    []string // names of quantifier-bound variables currently in scope
@@ -324,6 +326,7 @@ func mergeSVs(vc *VC, conds []string, vals []*SV) *SV {
 	for _, v := range vals {
 		out.Exact = out.Exact && v.Exact
 		out.NonNil = out.NonNil && v.NonNil
+		out.File = out.File || v.File
 	}
 	seen := map[string]bool{}
 	for _, v := range vals {
